@@ -671,7 +671,7 @@ def run_cases(c, S, cases, nproc=8, chunk=12):
         import select, signal
         pid, rfd, sub = job
         data = b""
-        deadline = time.time() + (10 + 2 * len(sub))     # watchdog: the Kepler solver can loop forever (F14, C03)
+        deadline = time.time() + (8 + 1.5 * len(sub))     # watchdog: the Kepler solver can loop forever (F14, C03)
         hung = False
         while True:
             rdy, _, _ = select.select([rfd], [], [], max(0.0, deadline - time.time()))
